@@ -448,7 +448,7 @@ func (f *p2pFam) Gen(r *hx.Run) {
 				rd(magic, frame[:r.Rng.Intn(len(frame))])
 			}
 			// payload defects under a valid header
-			for j := 0; j < r.Pick(3, 6); j++ {
+			for j := 0; j < r.Pick(3, 6) && !f.sawPanic[kind]; j++ { // (no random corruption of a payload whose decoder already panicked)
 				mp := mutate(r, payload)
 				out := rd(magic, reframe(magic, kind, mp))
 				r.Nontrivial(fmt.Sprintf("%s-mut/%s/%d", kind, outClass(out), lenBucket(len(mp))))
